@@ -8,7 +8,97 @@
 //!     preempted anywhere inside its critical section, which is what makes `try_lock` fail and lock-order
 //!     dependent results appear. (A yield cannot introduce behaviour real threads do not have.)
 
-pub use shuttle::thread_local;
+pub use shuttle;
+
+/// `std::thread::LocalKey` with the convenience methods the standard library offers for `Cell` / `RefCell` keys (shuttle's
+/// own key only has `with` / `try_with`). One model thread = one rayon task, so a key is FRESH in every task: the model
+/// explores the executions in which each task runs on a worker that has not touched the key before.
+pub struct LocalKey<T: 'static> {
+    inner: &'static shuttle::thread::LocalKey<T>,
+}
+impl<T: 'static> LocalKey<T> {
+    pub const fn new(inner: &'static shuttle::thread::LocalKey<T>) -> Self {
+        LocalKey { inner }
+    }
+    pub fn with<F: FnOnce(&T) -> R, R>(&'static self, f: F) -> R {
+        self.inner.with(f)
+    }
+    pub fn try_with<F: FnOnce(&T) -> R, R>(&'static self, f: F) -> Result<R, shuttle::thread::AccessError> {
+        self.inner.try_with(f)
+    }
+}
+impl<T: 'static> LocalKey<std::cell::Cell<T>> {
+    pub fn set(&'static self, value: T) {
+        self.with(|c| c.set(value))
+    }
+    pub fn get(&'static self) -> T
+    where
+        T: Copy,
+    {
+        self.with(|c| c.get())
+    }
+    pub fn take(&'static self) -> T
+    where
+        T: Default,
+    {
+        self.with(|c| c.take())
+    }
+    pub fn replace(&'static self, value: T) -> T {
+        self.with(|c| c.replace(value))
+    }
+}
+impl<T: 'static> LocalKey<std::cell::RefCell<T>> {
+    pub fn with_borrow<F: FnOnce(&T) -> R, R>(&'static self, f: F) -> R {
+        self.with(|c| f(&c.borrow()))
+    }
+    pub fn with_borrow_mut<F: FnOnce(&mut T) -> R, R>(&'static self, f: F) -> R {
+        self.with(|c| f(&mut c.borrow_mut()))
+    }
+    pub fn set(&'static self, value: T) {
+        self.with(|c| *c.borrow_mut() = value)
+    }
+    pub fn take(&'static self) -> T
+    where
+        T: Default,
+    {
+        self.with(|c| c.take())
+    }
+    pub fn replace(&'static self, value: T) -> T {
+        self.with(|c| c.replace(value))
+    }
+}
+
+#[macro_export]
+macro_rules! thread_local {
+    () => {};
+    ($(#[$attr:meta])* $vis:vis static $name:ident : $t:ty = const { $init:expr } ; $($rest:tt)*) => {
+        $crate::__vsync_tl!($(#[$attr])* $vis $name, $t, $init);
+        $crate::thread_local!($($rest)*);
+    };
+    ($(#[$attr:meta])* $vis:vis static $name:ident : $t:ty = const { $init:expr }) => {
+        $crate::__vsync_tl!($(#[$attr])* $vis $name, $t, $init);
+    };
+    ($(#[$attr:meta])* $vis:vis static $name:ident : $t:ty = $init:expr ; $($rest:tt)*) => {
+        $crate::__vsync_tl!($(#[$attr])* $vis $name, $t, $init);
+        $crate::thread_local!($($rest)*);
+    };
+    ($(#[$attr:meta])* $vis:vis static $name:ident : $t:ty = $init:expr) => {
+        $crate::__vsync_tl!($(#[$attr])* $vis $name, $t, $init);
+    };
+}
+#[doc(hidden)]
+#[macro_export]
+macro_rules! __vsync_tl {
+    ($(#[$attr:meta])* $vis:vis $name:ident, $t:ty, $init:expr) => {
+        $(#[$attr])*
+        $vis static $name: $crate::LocalKey<$t> = {
+            $crate::shuttle::thread_local! {
+                static INNER: $t = $init;
+            }
+            $crate::LocalKey::new(&INNER)
+        };
+    };
+}
 
 pub mod sync {
     pub use shuttle::sync::{atomic, mpsc, Barrier, BarrierWaitResult, Condvar, Once, OnceState, WaitTimeoutResult};
